@@ -102,6 +102,8 @@ def ref_native(n: int, edges: List[Tuple[int, int]], k: int, allow_empty: bool, 
 
 
 def run(repo: Repo, rep: Report) -> None:
+    from .encodings import engine_selfcheck
+    engine_selfcheck(rep)
     rep.rule("ENC-S", "division_connected posts the reference spanning-forest schema / the per-label native schema (deviations triaged by projection)")
     rep.rule("ALG-10", "grid form: roots given as (y, x) become y * width + x; None entries kept; the label array is flattened row-major onto the grid graph")
     rep.saw(GRAPH, "_division_connected")
